@@ -704,3 +704,41 @@ Definition fast_of_text (s : bytes) : option fastprog :=
   | Some p => Some p
   | None => option_map FSingle (try_fast_compare s)
   end.
+
+(* ------------------------------------------------------------------ comparisons written literal-first *)
+(* `20 <= x`, `'a' == status`: NOT a shortcut shape (both regexes of tryFastCompare start with the
+   column), so such a text - alone or as a part of a flat chain - is always left to the general
+   evaluator. Its meaning there is the comparison with the operands swapped: `lit OP x` holds exactly
+   when `x mirror(OP) lit` does (mirror_op_swaps_operands); mixed kinds are symmetric (Equal ->
+   DeepEqual false, an ordering helper fails whatever the side). *)
+Definition mirror_op (o : cop) : cop :=
+  match o with OGt => OLt | OGe => OLe | OLt => OGt | OLe => OGe | x => x end.
+
+(* ^\s* literal \s* op \s* ident \s*$  read as the column-first comparison that means the same *)
+Definition parse_cmp_lf (s : bytes) : option ccmp :=
+  match parse_lit (skip_ws s) with
+  | None => None
+  | Some (l, s1) =>
+      match parse_op (skip_ws s1) with
+      | None => None
+      | Some (o, s2) =>
+          match parse_ident (skip_ws s2) with
+          | None => None
+          | Some (f, s3) => match skip_ws s3 with [] => Some (mkCmp f (mirror_op o) l) | _ :: _ => None end
+          end
+      end
+  end.
+
+Definition parse_cmp_any (s : bytes) : option ccmp :=
+  match parse_cmp s with Some c => Some c | None => parse_cmp_lf s end.
+
+(* the general evaluator's reading of a comparison / flat chain whose parts are written in either order
+   (used only where parse_shape declines the text: some part is literal-first, no shortcut exists) *)
+Definition parse_shape_any (s : bytes) : option shape :=
+  match chain_op s with
+  | Some a => match map_opt parse_cmp_any (split_logic [] s) with
+              | Some cs => Some (SChain a cs)
+              | None => option_map SCmp (parse_cmp_any s)
+              end
+  | None => option_map SCmp (parse_cmp_any s)
+  end.
